@@ -1108,6 +1108,10 @@ func rC07ModeFlow(w *World, r *Report) {
 				}
 			}
 		}
+		// decided over the finite set of texts the prefix group can hold: only `-` is left
+		if left, ok := prefixesLeft(w, factsAt(ref.Block())); ok && !notLong {
+			notLong = len(left) == 1 && left["-"]
+		}
 		ru.Check(notLong, "splitter/mode-read", w.IPos(ref), "mode consulted only for single-dash tokens", "the mode is consulted for tokens that may start with `--`: long options would be interpreted differently per mode")
 	}
 	if n == 0 {
@@ -1476,7 +1480,22 @@ func isOptionBranchEntries(w *World, fn *ssa.Function) (long, normal *ssa.BasicB
 			continue
 		}
 		isTestBlock[b] = true
-		tests = append(tests, test{iff, bo.Op == token.EQL})
+		pos := bo.Op == token.EQL
+		if c, _ := constString(y); c == "-" {
+			// a comparison with the single dash: the other texts of the prefix group (`--`, `/`) take the other edge
+			lang := prefixLangOf(w, x)
+			onlyLong := len(lang) > 1
+			for s := range lang {
+				if s != "-" && s != "--" && s != "/" {
+					onlyLong = false
+				}
+			}
+			if !onlyLong {
+				continue
+			}
+			pos = !pos
+		}
+		tests = append(tests, test{iff, pos})
 	}
 	if len(tests) == 0 {
 		return nil, nil, "no test of the prefix group"
